@@ -29,6 +29,7 @@ INT_TYPES = {  # (type, format) -> (go type, lo, hi)
     ("integer", "uint32"): ("uint32", 0, 2**32 - 1),
     ("integer", "uint64"): ("uint64", 0, 2**63 - 1),  # symbolic values are drawn from int64: upper half outside the claim
 }
+STR_FORMATS = {"uuid": "strfmt.UUID", "email": "strfmt.Email", "hostname": "strfmt.Hostname", "ipv4": "strfmt.IPv4", "uri": "strfmt.URI"}
 NUM_TYPES = {("number", ""): "float64", ("number", "double"): "float64", ("number", "float"): "float32"}
 
 
@@ -78,6 +79,7 @@ class Case:
         self.name, self.family, self.desc = name, family, desc
         self.lines = []
         self.n = 0
+        self.uses_format = False
 
     def fresh(self, base):
         self.n += 1
@@ -136,7 +138,7 @@ def base_gotype(s):
         if t == "number":
             return NUM_TYPES[(t, f)]
         if t == "string":
-            return "string"
+            return STR_FORMATS.get(f, "string")
         if t == "boolean":
             return "bool"
     raise Exception("inline objects are not used by this tool: %r" % s)
@@ -211,6 +213,11 @@ def gen_scalar(c, s, tag):
             assert p.startswith("^") and p[1:].isalnum(), "only ^literal patterns have a hand-written reference"
             lit = p[1:]
             r.append("vHasPrefixRef(%s, %s)" % (v, json.dumps(lit)))
+        if f in STR_FORMATS:
+            # whether a text is a well-formed <format> is the registry's business: an oracle bit of the case
+            c.uses_format = True
+            r.append("fmtok")
+            return "%s(%s)" % (STR_FORMATS[f], v), AND(*r), "len(%s) == 0" % v
         return v, AND(*r), "len(%s) == 0" % v
     if t == "boolean":
         v = c.fresh("b")
@@ -505,6 +512,12 @@ def build():
         if f:
             leaf["format"] = f
         contexts("enum", "%s/%s enum" % (t, f or "-"), leaf, "AuxEnum%d" % k)
+    # string formats checked by Validate through the registry (string-backed strfmt types)
+    for fmt_name, extra in [("uuid", {}), ("email", {"maxLength": 4}), ("hostname", {"enum": ["ab", "n/a"]}), ("ipv4", {"minLength": 1}), ("uri", {"enum": ["x"]})]:
+        k += 1
+        leaf = {"type": "string", "format": fmt_name, "_maxlen": 4}
+        leaf.update(extra)
+        contexts("format", "string/%s %s" % (fmt_name, "+".join(extra.keys()) or "plain"), leaf, "AuxFmt%d" % k)
     # integer multipleOf
     for (t, f) in [("integer", "int32"), ("integer", ""), ("integer", "uint32")]:
         k += 1
@@ -576,6 +589,10 @@ def write():
     L.append("")
     L.append("package models")
     L.append("")
+    L.append('import "github.com/go-openapi/strfmt"')
+    L.append("")
+    L.append("var _ strfmt.Registry = vFormats{}")
+    L.append("")
     L.append("func init() {")
     for fam in fams:
         L.append('\tvRegister("VerifGen%s", VerifGen%s)' % (goname(fam), goname(fam)))
@@ -595,9 +612,13 @@ def write():
     for c in CASES:
         L.append("// %s: %s" % (c.name, c.desc))
         L.append("func v%s() {" % c.name)
+        if c.uses_format:
+            L.append('\tfmtok := vBool("text.isWellFormed")')
+        else:
+            L.append("\tfmtok := true")
         L += c.lines
         L.append("\tref := %s" % c.ref)
-        L.append("\terr := m.Validate(nil)")
+        L.append("\terr := m.Validate(vFormats{ok: fmtok})")
         L.append('\tvCover("%s")' % c.family)
         L.append("\tvCheckVerdict(err == nil, ref, %s)" % json.dumps(c.name + " (" + c.desc + ")"))
         L.append("}")
